@@ -144,9 +144,10 @@ class FakeSess(object):
     cfg  = ru.Config(from_dict={})
 
 
-def make_task(uid, sbox, timeout=0.0):
+def make_task(uid, sbox, timeout=0.0, startup_timeout=0.0):
     td = rp.TaskDescription({'executable': '/bin/true', 'uid': uid,
-                             'timeout': timeout})
+                             'timeout': timeout,
+                             'startup_timeout': startup_timeout})
     td.verify()
     return {'uid': uid, 'type': 'task', 'origin': 'client',
             'state': rps.AGENT_EXECUTING_PENDING,
@@ -218,7 +219,8 @@ class World(object):
 
         def handle_timeout(task):
             real_handle_timeout(task)
-            if task['description'].get('timeout'):
+            if task['description'].get('timeout') or \
+               task['description'].get('startup_timeout'):
                 self.timeout_armed = True
         c.handle_timeout = handle_timeout
 
@@ -228,8 +230,11 @@ class World(object):
 
         self.tasks = [make_task('t%d' % (i + 1), sbox,
                                 timeout=scn.get('timeout', 0.0)
+                                if i == 0 else 0.0,
+                                startup_timeout=scn.get('startup', 0.0)
                                 if i == 0 else 0.0)
                       for i in range(scn['n_tasks'])]
+        self.started_up = False
         self.cancel_uids = list(scn.get('cancel') or [])
 
     # ----------------------------------------------------------------------
@@ -255,9 +260,21 @@ class World(object):
                 self.procs[uid].exit(code)
             return t_exit
 
+        def t_startup():
+            # the task reports that it started up in time
+            s.block_until(lambda: 't1' in self.procs)
+            s.yield_point()
+            c._control_cb(rpc.CONTROL_PUBSUB, seams.wire(
+                {'cmd': 'task_startup_done', 'arg': {'uid': 't1'}}))
+            self.started_up = True
+            s.bump(force=True)
+
         def t_clock():
             # time passes once the run-time limit of the timed task is armed
+            # (and, for startup limits, once the task reported its start-up)
             s.block_until(lambda: self.timeout_armed)
+            if scn.get('startup'):
+                s.block_until(lambda: self.started_up)
             for _ in range(scn.get('ticks', 2)):
                 s.yield_point()
                 s.now += 1.1
@@ -265,9 +282,11 @@ class World(object):
 
         s.spawn('intake',  t_intake)
         s.spawn('watcher', c._watch, poller=True)
-        if scn.get('timeout'):
+        if scn.get('timeout') or scn.get('startup'):
             s.spawn('timeouts', c._to_watcher, poller=True)
             s.spawn('clock', t_clock).daemon = True
+        if scn.get('startup'):
+            s.spawn('startup', t_startup).daemon = True
         if self.cancel_uids and not scn.get('cancel_first'):
             s.spawn('control', t_control)
         for i, code in enumerate(scn['exit_codes']):
@@ -434,8 +453,10 @@ def judge(part, w):
 
         for tgt, ec in o['push']:
             if tgt == rps.CANCELED and not (named or timed):
-                viol('C08', 'canceled-unrequested', 'Popen.cancel_task', trig,
-                     '%s pushed as CANCELED without request' % uid)
+                for prop in ('C08', 'C05', 'C07'):
+                    viol(prop, 'canceled-unrequested', 'Popen.cancel_task',
+                         trig, '%s pushed as CANCELED without cancel request '
+                               'or expired limit' % uid)
             if tgt == rps.DONE and ec != 0:
                 viol('C07', 'outcome', 'Popen._check_running', trig,
                      '%s DONE with exit code %s' % (uid, ec))
@@ -505,6 +526,12 @@ def scenarios(quick):
         add('cancel', 1, (code,), cancel=['t1'], instant_exit=True)
         add('timeout', 1, (code,), timeout=1.0, ticks=2, instant_exit=True)
     add('cancel', 2, (0, 0), cancel=['t1'], instant_exit=True)
+    # a start-up limit which the task meets: it runs on without any limit
+    add('startup', 1, (0,), startup=1.0, ticks=2)
+    add('startup', 1, (1,), startup=1.0, ticks=2)
+    add('startup', 2, (0, 0), startup=1.0, ticks=2)
+    # ... and with a run-time limit which then applies
+    add('startup+timeout', 1, (None,), startup=1.0, timeout=1.0, ticks=3)
     add('cancel', 1, (None,), cancel=['t1'])
     add('timeout', 1, (None,), timeout=1.0, ticks=2)
     for fault in ('exec', 'launch', 'popen', 'nolauncher'):
